@@ -160,6 +160,17 @@ class SimPool:
         return results
 
 
+def assert_pool_model():
+    """SimPool models CPython's Pool.starmap; refuse to run if this interpreter's Pool works differently."""
+    import inspect
+    import multiprocessing.pool as mpp
+    src = inspect.getsource(mpp.Pool._map_async)
+    tasks = inspect.getsource(mpp.Pool._get_tasks)
+    if ('divmod(len(iterable), len(self._pool) * 4)' not in src or 'Pool._get_tasks(func, iterable, chunksize)' not in src
+            or 'yield (func, x)' not in tasks):
+        raise kernel.HarnessError('multiprocessing.Pool of this interpreter does not chunk / ship the callable as SimPool models it')
+
+
 # ------------------------------------------------------------------ process state
 class Proc:
     def __init__(self, spec):
